@@ -413,7 +413,8 @@ class Interp:
             self.env[l["referencedDecl"]["name"]] = v
             return
         if l.get("kind") == "MemberExpr":
-            self.env[canon(l)] = v
+            # opt-in heap mode: a store through a pointer that holds the address of a named object updates that object
+            self.env[self.member_key(l) if getattr(self, "heap", False) else canon(l)] = v
             return
         raise Unsupported("assignment target %s" % l.get("kind"))
 
@@ -598,6 +599,26 @@ class Interp:
             return
         if k == "NullStmt":
             return
+        if k in ("WhileStmt", "DoStmt") and getattr(self, "concrete_loops", False):
+            # opt-in: concrete execution of a while / do loop (all values concrete), bounded
+            cond = ks[-2] if k == "WhileStmt" else ks[-1]
+            body = ks[-1] if k == "WhileStmt" else ks[0]
+            first = k == "DoStmt"
+            for _ in range(256):
+                if not first:
+                    c = self.ev(cond)
+                    if isinstance(c, SymVal):
+                        raise Unsupported("loop with a symbolic condition at line %s" % s.get("line"))
+                    if not self._truth(c, s):
+                        return
+                first = False
+                try:
+                    self.exec(body)
+                except _Break:
+                    return
+                except _Continue:
+                    pass
+            raise Unsupported("loop bound exceeded at line %s" % s.get("line"))
         if k in ("WhileStmt", "ForStmt", "DoStmt", "CXXForRangeStmt"):
             raise Unsupported("loop at line %s" % s.get("line"))
         # expression statement
